@@ -119,9 +119,14 @@ def lexer_cases(ctx, n):
             continue   # tokenize normalises / rejects these before lexing: outside the literal lexer
         # escapes outside the model: octal and \N
         bad = False
-        for i, ch in enumerate(text[:-1]):
-            if ch == "\\" and (text[i + 1].isdigit() or text[i + 1] == "N") and (i == 0 or text[i - 1] != "\\"):
-                bad = True
+        i = 0
+        while i < len(text) - 1:       # escape sequences are read left to right, two characters at a time
+            if text[i] == "\\":
+                if text[i + 1].isdigit() or text[i + 1] == "N":
+                    bad = True
+                i += 2
+            else:
+                i += 1
         if bad:
             continue
         lines.append({"op": "pylex", "s": cps(text)})
